@@ -195,13 +195,14 @@ def Expr.inlineCleanB : Expr → Bool
   | .binding _ v _ _ _ => v.inlineCleanB
   | .paren v lg _ _ _ _ _ => ((Layout.fromGap lg).onNewline || v.before.isEmpty) && v.inlineCleanB
   | .app n x g _ _ _ => ((Layout.fromGap g).onNewline || x.before.isEmpty) && n.inlineCleanB && x.inlineCleanB
-  | .wth .. => false     -- `with` / `assert` / select: outside the spacing theorem so far (`File.basic`)
+  | .wth .. => false     -- `with` / `assert`: outside the spacing theorem so far (`File.basic`)
   | .asrt .. => false
-  | .sel .. => false
-  | .selOr .. => false
-  | .lam .. => false
-  | .un .. => false
-  | .bin .. => false
+  | .sel e _ _ _ _ _ => e.inlineCleanB
+  | .selOr e _ _ _ d _ _ _ _ => e.inlineCleanB && d.inlineCleanB
+  | .lam _ _ _ _ body _ _ => body.inlineCleanB
+  | .un _ e _ _ _ _ => e.inlineCleanB
+  -- at most one blank line in front of / after a binary operator (`cex_blank_lines_around_operator`)
+  | .bin _ l r ogl rgl _ _ => decide (ogl ≤ 2) && decide (rgl ≤ 2) && l.inlineCleanB && r.inlineCleanB
 def allInlineCleanB : List Expr → Bool
   | [] => true
   | e :: rest => e.inlineCleanB && allInlineCleanB rest
@@ -226,13 +227,14 @@ def Expr.beforeFlatB : Expr → Bool
   | .binding _ v _ _ _ => v.beforeFlatB
   | .paren v lg _ _ _ _ _ => ((Layout.fromGap lg).onNewline || v.before.isEmpty) && v.beforeFlatB
   | .app n x g _ _ _ => ((Layout.fromGap g).onNewline || x.before.isEmpty) && n.beforeFlatB && x.beforeFlatB
-  | .wth .. => false     -- `with` / `assert` / select: outside the spacing theorem so far (`File.basic`)
+  | .wth .. => false     -- `with` / `assert`: outside the spacing theorem so far (`File.basic`)
   | .asrt .. => false
-  | .sel .. => false
-  | .selOr .. => false
-  | .lam .. => false
-  | .un .. => false
-  | .bin .. => false
+  | .sel e _ _ _ _ _ => e.beforeFlatB
+  | .selOr e _ _ _ d _ _ _ _ => e.beforeFlatB && d.beforeFlatB
+  | .lam _ _ _ _ body _ _ => body.beforeFlatB
+  | .un _ e _ _ _ _ => e.beforeFlatB
+  -- at most one blank line in front of / after a binary operator (`cex_blank_lines_around_operator`)
+  | .bin _ l r ogl rgl _ _ => decide (ogl ≤ 2) && decide (rgl ≤ 2) && l.beforeFlatB && r.beforeFlatB
 def allBeforeFlatB : List Expr → Bool
   | [] => true
   | e :: rest => e.beforeFlatB && allBeforeFlatB rest
@@ -253,11 +255,11 @@ def Expr.beforeFlatG : Expr → Bool
   | .app n x _ _ _ _ => n.beforeFlatG && x.beforeFlatG
   | .wth .. => false
   | .asrt .. => false
-  | .sel .. => false
-  | .selOr .. => false
-  | .lam .. => false
-  | .un .. => false
-  | .bin .. => false
+  | .sel e _ _ _ _ _ => e.beforeFlatG
+  | .selOr e _ _ _ d _ _ _ _ => e.beforeFlatG && d.beforeFlatG
+  | .lam _ _ _ _ body _ _ => body.beforeFlatG
+  | .un _ e _ _ _ _ => e.beforeFlatG
+  | .bin _ l r _ _ _ _ => l.beforeFlatG && r.beforeFlatG
 def allBeforeFlatG : List Expr → Bool
   | [] => true
   | e :: rest => e.beforeFlatG && allBeforeFlatG rest
@@ -277,11 +279,12 @@ def Expr.beforeFlatP : Expr → Bool
   | .app n x _ _ _ _ => n.beforeFlatP && x.beforeFlatP
   | .wth .. => false
   | .asrt .. => false
-  | .sel .. => false
-  | .selOr .. => false
-  | .lam .. => false
-  | .un .. => false
-  | .bin .. => false
+  | .sel e _ _ _ _ _ => e.beforeFlatP
+  | .selOr e _ _ _ d _ _ _ _ => e.beforeFlatP && d.beforeFlatP
+  | .lam _ _ _ _ body _ _ => body.beforeFlatP
+  | .un _ e _ _ _ _ => e.beforeFlatP
+  -- at most one blank line in front of / after a binary operator (`cex_blank_lines_around_operator`)
+  | .bin _ l r ogl rgl _ _ => decide (ogl ≤ 2) && decide (rgl ≤ 2) && l.beforeFlatP && r.beforeFlatP
 def allBeforeFlatP : List Expr → Bool
   | [] => true
   | e :: rest => e.beforeFlatP && allBeforeFlatP rest
@@ -317,9 +320,10 @@ def File.orderOkNA (f : File) : Bool := f.items.orderOkNA .file .none false fals
 
 /-! ### the part of the fragment without `with` / `assert`
 
-The theorems of C18 (spacing normal form), C02 and C06 (fixed point of comment-free files) are proved
-for the files without `with` and `assert` (containers, parentheses, calls); C01 and C03 cover the
-whole fragment. -/
+The theorems of C18 (spacing normal form) and C02 are proved for the files without `with` and `assert`
+and with at most one blank line after the colon of a lambda (`File.basic`: containers, parentheses,
+calls, select, `or`, lambda, unary and binary operators); C06 (fixed point of comment-free files)
+for containers, parentheses and calls (`Cst.cf`); C01 and C03 cover the whole fragment. -/
 
 mutual
 def Cst.basic : Cst → Bool
@@ -329,11 +333,12 @@ def Cst.basic : Cst → Bool
   | .paren its _ => its.basic
   | .app f _ _ a => f.basic && a.basic
   | .kw .. => false
-  | .sel .. => false
-  | .selOr .. => false
-  | .lam .. => false
-  | .un .. => false
-  | .bin .. => false
+  | .sel e _ _ _ _ => e.basic
+  | .selOr e _ _ _ _ _ _ _ d => e.basic && d.basic
+  -- at most one blank line between the colon of a lambda and its body (`cex_blank_lines_after_colon`)
+  | .lam _ _ _ _ g2 b => decide (g2.count '\n' ≤ 2) && b.basic
+  | .un _ _ _ e => e.basic
+  | .bin l _ _ _ _ _ r => l.basic && r.basic
 def Items.basic : Items → Bool
   | .nil => true
   | .cmt _ _ rest => rest.basic
